@@ -58,8 +58,8 @@ class NdiRec:
         return lambda img, *a, **k: self._mk(name, img, *a, **k)
 
 
-def _load(patches=None):
-    L = load.load(MODS, patches=patches)
+def _load(patches=None, keep_cache=False):
+    L = load.load(MODS, patches=patches, keep_cache=keep_cache)
     rec = NdiRec()
     L["acryo.pipe._masking"].ndi = rec
     L["acryo.pipe._transform"].ndi = rec
@@ -425,6 +425,112 @@ def sec_units(rec, patches=None):
                 rec.query(f"units/from_array/path{pi}/zoom-factor=orig/scale", h, zr(z[2][0]) == ratio, key="C19/units/from_array-zoom", nonlinear=True)
 
 
+def replay_readers(cex):
+    """installed library: from_arrays / from_files honour tol and original_scale like a list of single providers; from_file returns what the file holds now"""
+    import os
+    import tempfile
+    from acryo import pipe
+    from acryo._reader import REG
+
+    rng = np.random.default_rng(0)
+    bad = []
+    imgs = [rng.normal(size=(24, 20, 18)).astype(np.float32), rng.normal(size=(12, 12, 12)).astype(np.float32)]
+    for tol in (0.01, 0.1, 0.3):
+        for sc in (1.0, 1.08, 0.8, 1.25):
+            a = pipe.from_arrays(imgs, original_scale=1.0, tol=tol)(sc)
+            b = [pipe.from_array(im, original_scale=1.0, tol=tol)(sc) for im in imgs]
+            if len(a) != len(b) or any(x.shape != y.shape or not np.allclose(x, y) for x, y in zip(a, b)):
+                bad.append({"from_arrays": {"tol": tol, "scale": sc, "shapes": [list(x.shape) for x in a], "single": [list(y.shape) for y in b]}})
+    with tempfile.TemporaryDirectory() as d:
+        path = os.path.join(d, "t.mrc")
+        try:
+            import mrcfile
+
+            prov_old = None
+            for k, im in enumerate((imgs[1], imgs[1][::-1].copy() * 2)):
+                with mrcfile.new(path, overwrite=True) as mrc:
+                    mrc.set_data(im)
+                    mrc.voxel_size = 10.0  # 1 nm
+                prov_old = prov_old or pipe.from_file(path)
+                old = prov_old(1.0)
+                if old.shape != im.shape or not np.allclose(old, im, atol=1e-5):
+                    bad.append({"from_file": f"provider created before write #{k + 1}: the provided image is not the image in the file"})
+                got = pipe.from_file(path)(1.0)
+                if got.shape != im.shape or not np.allclose(got, im, atol=1e-5):
+                    bad.append({"from_file": f"after write #{k + 1} the provided image is not the image in the file"})
+                got2 = pipe.from_files([path])(1.0)[0]
+                if got2.shape != im.shape or not np.allclose(got2, im, atol=1e-5):
+                    bad.append({"from_files": f"after write #{k + 1} the provided image is not the image in the file"})
+        except Exception as e:
+            bad.append({"from_file": "raised " + repr(e)[:120]})
+    return len(bad) > 0, {"n": len(bad), "examples": bad[:4]}
+
+
+def sec_readers(rec, patches=None):
+    """from_file / from_files / from_arrays: the file is read at every call, the batch variants forward original_scale and tol to the single providers"""
+    L = _load(patches, keep_cache=True)  # functools.lru_cache stays active: memoising a reader by path would go stale
+    I = L["acryo.pipe._imread"]
+    ndi = L.ndi
+    rec.encodes("acryo/pipe/_imread.py:from_file", "acryo/pipe/_imread.py:from_files", "acryo/pipe/_imread.py:from_arrays", "acryo/pipe/_imread.py:from_array")
+    rec.assume("the image reader is replaced by a stand-in that returns (image #k, voxel size) for the k-th read of a path: a file may be rewritten between two calls; zoom is recorded")
+    reads = []
+
+    class Reader:
+        def imread_array(self, path):
+            reads.append(path)
+            im = np.zeros((2, 2, 2), dtype=np.float32)
+            im[0, 0, 0] = len(reads)
+            return im, fscale
+
+    fscale = real("file_scale")
+    scale, tol, orig = real("scale"), real("tol"), real("orig")
+    I.REG = Reader()
+    hyps = [scale.e > 0, tol.e > 0, orig.e > 0, fscale.e > 0]
+    arr = [np.zeros((2, 2, 2), dtype=np.float32), np.ones((2, 2, 2), dtype=np.float32)]
+
+    def run():
+        del reads[:]
+        del ndi.calls[:]
+        prov = I.from_file("p.mrc", orig, tol)
+        out1 = prov(scale)
+        out2 = prov(scale)
+        out3 = I.from_file("p.mrc", orig, tol)(scale)
+        n_reads = len(reads)
+        calls_file = list(ndi.calls)
+        del ndi.calls[:]
+        outs = I.from_arrays(arr, orig, tol)(scale)
+        calls_arrs = list(ndi.calls)
+        del ndi.calls[:]
+        single = [I.from_array(a_, orig, tol)(scale) for a_ in arr]
+        return (out1, out2, out3, n_reads, calls_file), (outs, calls_arrs, single, list(ndi.calls))
+
+    for pi, p in enumerate(explore(run, assumptions=hyps, max_paths=40)):
+        if not p.ok:
+            ok, det = replay_readers({})
+            rec.fact(f"readers/path{pi}/runs", False, key="C19/readers/raises", detail={"exc": repr(p.exc)[:300], **det}, reproduced=ok)
+            continue
+        (o1, o2, o3, n_reads, cf), (outs, ca, single, cs) = p.result
+        h = hyps + [p.condition()]
+        rec.fact(f"readers/path{pi}/the-file-is-read-at-every-call", n_reads == 3, key="C19/readers/file-read-each-call", detail={"reads": n_reads}, reproduced=True if n_reads == 3 else replay_readers({})[0])
+
+        def version(o):
+            src = o.rec[1] if isinstance(o, TagArr) else o
+            return float(np.asarray(src)[0, 0, 0])
+
+        vs = [version(o) for o in (o1, o2, o3)]
+        rec.fact(f"readers/path{pi}/each-call-provides-the-image-read-at-that-call", vs == [1.0, 2.0, 3.0], key="C19/readers/stale-file", detail={"versions": vs}, reproduced=True if vs == [1.0, 2.0, 3.0] else replay_readers({})[0])
+        # batch provider == list of single providers (same zoom decisions and factors)
+        same_n = len(outs) == len(single) == 2 and len(ca) == len(cs)
+        rec.fact(f"readers/path{pi}/from_arrays-makes-the-same-resampling-decisions-as-single-providers", bool(same_n), key="C19/readers/from_arrays", detail={"zoom_calls": [len(ca), len(cs)]},
+                 reproduced=True if same_n else replay_readers({})[0])
+        if same_n:
+            for k, (x, y) in enumerate(zip(ca, cs)):
+                rec.query(f"readers/path{pi}/from_arrays/zoom{k}-factor", h, zr(x[2][0]) == zr(y[2][0]), key="C19/readers/from_arrays", replay=replay_readers, twin=False, nonlinear=True)
+            for k, (x, y) in enumerate(zip(outs, single)):
+                okk = (isinstance(x, TagArr) == isinstance(y, TagArr)) and (isinstance(x, TagArr) or x is arr[k])
+                rec.fact(f"readers/path{pi}/from_arrays/image{k}-unchanged-iff-single-provider-leaves-it-unchanged", bool(okk), key="C19/readers/from_arrays", detail={}, reproduced=True if okk else replay_readers({})[0])
+
+
 def sec_gaussian(rec, patches=None):
     """from_gaussian: exponent = -1/2 sum_i ((x_i - c_i)/sigma_i)^2 with c = (n-1)/2 + shift/scale"""
     L = _load(patches)
@@ -502,7 +608,7 @@ def sec_normalize(rec, patches=None):
 
 def sections(tier):
     return [("operators", "checks.c19", "sec_operators", {}), ("compose", "checks.c19", "sec_compose", {}), ("units", "checks.c19", "sec_units", {}),
-            ("gaussian", "checks.c19", "sec_gaussian", {}), ("normalize", "checks.c19", "sec_normalize", {})]
+            ("gaussian", "checks.c19", "sec_gaussian", {}), ("normalize", "checks.c19", "sec_normalize", {}), ("readers", "checks.c19", "sec_readers", {})]
 
 
 _CL, _MK, _TR, _IM, _LB = "acryo.pipe._classes", "acryo.pipe._masking", "acryo.pipe._transform", "acryo.pipe._imread", "acryo.loader._base"
